@@ -98,6 +98,7 @@ type Sim struct {
 	Procs int
 
 	Stats      map[string]int
+	mapW       map[uintptr]*Task // maps in the middle of a modelled write (see MapWriteBegin)
 	Violations []Violation
 	Verdict    string // "", "hang", "budget", "panic"
 	PanicInfo  string
